@@ -137,6 +137,7 @@ class World(object):
         self.in_dc = set(range(n))
         self.registered = []
         self.delay = []
+        self.hdelay = []
 
 
 class Scenario(object):
@@ -157,15 +158,24 @@ class Scenario(object):
     def enabled(self, w):
         ops = []
         for n in w.names:
+            if self.delay == 'hub' and n not in w.registered and \
+                    (w.hdelay or not all(x in w.present for src, dst, _ in w.atoms[n] for x in list(src) + [dst])):
+                # (hub-delay scenario) nothing is ADDED while the hub queues messages, and no link to a component
+                # that is gone: the manager hears of a removal only when the block ends, i.e. after whatever was
+                # registered in between - an ordering the statement ("immediately") does not speak about
+                continue
             ops.append(['rm_link' if n in w.registered else 'add_link', n])
         for cn in self.comps:
             if cn in w.present:
                 ops.append(['rm_comp', cn])
-            elif cn not in ('g0', 'h0'):   # a removed derived attribute is not re-created
+            elif cn not in ('g0', 'h0') and not w.hdelay:   # a removed derived attribute is not re-created
                 ops.append(['add_comp', cn])
         for i in self.data:
             ops.append(['rm_data' if i in w.in_dc else 'add_data', i])
-        if self.delay:
+        if self.delay == 'hub':
+            # the HUB's delay block (messages are queued): what viewers and plugins wrap bulk changes in
+            ops.append(['hdelay-'] if w.hdelay else ['hdelay+'])
+        elif self.delay:
             ops.append(['delay-'] if w.delay else ['delay+'])
         return ops
 
@@ -204,6 +214,12 @@ class Scenario(object):
                 w.delay.append(cm)
             elif k == 'delay-':
                 w.delay.pop().__exit__(None, None, None)
+            elif k == 'hdelay+':
+                cm = w.dc.hub.delay_callbacks()
+                cm.__enter__()
+                w.hdelay.append(cm)
+            elif k == 'hdelay-':
+                w.hdelay.pop().__exit__(None, None, None)
             else:
                 raise core.EngineError('unknown op %r' % (op,))
         except core.EngineError:
@@ -259,7 +275,7 @@ class Scenario(object):
     def check(self, w):
         from glue.core.exceptions import IncompatibleAttribute
         out = []
-        if w.delay:
+        if w.delay or w.hdelay:
             return out
         for i in sorted(w.in_dc):
             d = w.D[i]
@@ -315,7 +331,7 @@ class Scenario(object):
         for i, d in enumerate(w.D):
             ext[i] = sorted(w.inv_cid.get(id(c), '?') for c in d.externally_derivable_components)
         return dict(reg=sorted(w.registered), present=sorted(w.present), in_dc=sorted(w.in_dc),
-                    delay=len(w.delay), ext=ext,
+                    delay=len(w.delay), hdelay=len(w.hdelay), ext=ext,
                     real_links=sorted(n for n, l in w.links.items() if any(l is e for e in w.dc.external_links)),
                     pending=w.dc._disable_sync_link_manager)
 
@@ -326,6 +342,7 @@ def tiers(tier):
                 ('detour', Scenario(3, ['a', 'x', 'y', 'b'], comps=('c10',), data=(1,), delay=False), 7),
                 ('multi', Scenario(3, ['m', 'a', 'b', 'c'], comps=('c01', 'c20'), data=(2,), delay=False), 5),
                 ('detour2', Scenario(3, ['a', 'y', 'f', 'w'], comps=(), data=(), delay=False), 5),
+                ('hubdelay', Scenario(3, ['a', 'b'], comps=('c10', 'c11'), data=(), delay='hub'), 6),
                 ('derived', Scenario(3, ['k', 'c', 'e'], comps=('c00', 'g0', 'c21'), data=(0, 2), delay=False), 5),
                 ('derived-inv', Scenario(3, ['z', 'k', 'e'], comps=('c01', 'h0'), data=(0, 2), delay=False), 5)]
     return [('exact3', Scenario(3, ['a', 'b', 'c', 'd', 'e', 'f', 'g'], comps=('c11', 'n0', 'c20'), data=(0, 1, 2)), 6),
@@ -333,6 +350,7 @@ def tiers(tier):
             ('detour', Scenario(3, ['a', 'x', 'y', 'b', 'e'], comps=('c10', 'c01'), data=(1, 2)), 7),
             ('multi', Scenario(3, ['m', 'a', 'b', 'c', 'f'], comps=('c01', 'c20', 'c11'), data=(1, 2)), 6),
             ('detour2', Scenario(3, ['a', 'y', 'f', 'w', 'x'], comps=('c10',), data=(1,)), 6),
+            ('hubdelay', Scenario(3, ['a', 'b', 'c'], comps=('c10', 'c11', 'c01'), data=(1,), delay='hub'), 7),
             ('derived', Scenario(3, ['k', 'c', 'e', 'a'], comps=('c00', 'g0', 'c21'), data=(0, 2)), 6),
             ('derived-inv', Scenario(3, ['z', 'k', 'e', 'b'], comps=('c01', 'h0', 'c21'), data=(0, 2)), 6)]
 
